@@ -651,12 +651,12 @@ class SimulateOde(DeterministicOde):
         # (e.g. 2 timepoints =1 jump, 10 timepoints =9)
         X_out=np.zeros((len(targetTime)-1, n_trans))
 
-        # if exact, each point corresponds to a transitions and has weight 1.
+        # Row k of dX holds the number of times each transition fired in the step
+        # that ended at t[k+1] (a single 1 per row if exact), so in both cases the
+        # counts per interval are the histogram of the step end times weighted by
+        # the column of the transition.
         for i in range(n_trans):
-            if exact:
-                hist, bin_edges=np.histogram(t, bins=targetTime)
-            else:
-                hist, bin_edges=np.histogram(t[1:], bins=targetTime, weights=dX[:,i])
+            hist, bin_edges=np.histogram(t[1:], bins=targetTime, weights=dX[:,i])
             X_out[:,i]=hist            
 
         return X_out
